@@ -32,11 +32,16 @@ def main():
         had_demo = os.path.exists(demo)
         if had_demo:
             shutil.move(demo, demo + ".aside")
+        others = [p for p in (os.path.join(wt, "logos-codegen/tests/mutant_demo.rs"), os.path.join(wt, "logos-cli/tests/mutant_demo.rs")) if os.path.exists(p)]
+        for p in others:
+            shutil.move(p, p + ".aside")
         rc, out = sh("%s cargo test --workspace --offline 2>&1 | grep -E '^test result|FAILED|failed|error(\\[|:)' | sort | uniq -c | tail -15" % env, cwd=wt)
         meta["confirmed"]["suite_with_change"] = out.strip()[-1500:]
         suite_ok = "FAILED" not in out and "failed" not in out.replace("0 failed", "") and "error" not in out
         if had_demo:
             shutil.move(demo + ".aside", demo)
+        for p in others:
+            shutil.move(p + ".aside", p)
         # 2. demo fails with the change
         rc1, out1 = sh("%s sh MUTANT/run_demo.sh > /tmp/demo_out.txt 2>&1; rc=$?; tail -25 /tmp/demo_out.txt; exit $rc" % env, cwd=wt)
         # 3. demo passes without
